@@ -158,6 +158,12 @@ def check_sample(case, part):
             pars["e"] = xu.with_unit(pm.Truncated("e", pm.Beta.dist(0.867, 3.03), lower=None, upper=0.6), u.one)
         if custom in ("s_mixture",):
             kw["s"] = xu.with_unit(pm.Mixture("s", w=[0.3, 0.7], comp_dists=[pm.LogNormal.dist(np.log(0.1), 0.3), pm.LogNormal.dist(np.log(2.0), 0.5)]), u.km / u.s)
+        if custom in ("K_given_P",):
+            # a user-declared Normal on K whose width depends on the period (the documented way to customise the K prior)
+            from thejoker.distributions import UniformLog
+
+            Pv2 = xu.with_unit(UniformLog("P", Pmin, Pmax), u.day)
+            pars = {"P": Pv2, "K": xu.with_unit(pm.Normal("K", 1.5, 25.0 * (Pv2 / 64.0) ** (-1.0 / 3.0)), u.km / u.s)}
         if custom in ("P_det",):
             # the period declared through a deterministic transform of a variable that is not one of The Joker's parameters
             import pytensor.tensor as ptt
@@ -173,7 +179,9 @@ def check_sample(case, part):
             Pv = xu.with_unit(UniformLog("P", Pmin, Pmax), u.day)
             ev = xu.with_unit(pm.Beta("e", 0.867, 3.03 + 20.0 / Pv), u.one)
             pars = {"e": ev, "P": Pv} if custom == "e_given_P" else {"P": Pv, "e": ev}
-        prior = tj.JokerPrior.default(P_min=(Pmin * u.day).to(Pu), P_max=(Pmax * u.day).to(Pu), sigma_K0=sK0 * u.km / u.s, P0=P0d * u.day,
+        # "P_mixed": the two limits of the period prior are given in DIFFERENT time units
+        Pmin_q = (Pmin * u.day).to(u.hour if case.get("P_mixed") else Pu)
+        prior = tj.JokerPrior.default(P_min=Pmin_q, P_max=(Pmax * u.day).to(Pu), sigma_K0=sK0 * u.km / u.s, P0=P0d * u.day,
                                       sigma_v=svq if pt_ > 1 else svq[0], poly_trend=pt_, model=model, pars=pars if pars else None, **kw)
     for seed in case["seeds"]:
         c2 = dict(case, seed=seed)
@@ -212,8 +220,12 @@ def check_sample(case, part):
             decl = decl + st.vonmises(2.0, loc=1.0).logpdf(s["omega"].to_value(u.rad))
         if gl:
             K = s["K"].to_value(u.km / u.s)
-            sigK = np.minimum(sK0 * (P / P0d) ** (-1.0 / 3.0) / np.sqrt(1 - e**2), 500.0)
-            decl = decl + st.norm(0, sigK).logpdf(K)
+            if custom == "K_given_P":
+                sigK = 25.0 * (P / 64.0) ** (-1.0 / 3.0)
+                decl = decl + st.norm(1.5, sigK).logpdf(K)
+            else:
+                sigK = np.minimum(sK0 * (P / P0d) ** (-1.0 / 3.0) / np.sqrt(1 - e**2), 500.0)
+                decl = decl + st.norm(0, sigK).logpdf(K)
             for i in range(pt_):
                 vi = s[f"v{i}"].to_value(u.km / u.s / u.day**i)
                 decl = decl + st.norm(0, sv[i]).logpdf(vi)
@@ -275,7 +287,11 @@ def build(quick, seed):
                                              generate_linear=gl, P_unit=Pu, size=16, seeds=[0, 1] if quick else [0, 1, 2, 3]))
     samp.append(dict(kind="sample", P_lim=[0.1, 1e7], sigma_K0=30.0, P0_days=365.25, sigma_v=[100.0, 0.5], poly_trend=1, generate_linear=True,
                      P_unit="day", size=64, seeds=[0, 1, 2, 3], probe=True))
-    for custom in ("s_lognormal", "omega_vonmises", "both", "M0_uniform", "e_given_P", "e_given_P_rev", "e_truncated", "s_mixture", "P_det"):
+    for Pu_ in ("day", "yr"):
+        for gl_ in (False, True):
+            samp.append(dict(kind="sample", P_lim=[2.0, 550.0], sigma_K0=30.0, P0_days=365.25, sigma_v=[100.0, 0.5], poly_trend=1, generate_linear=gl_,
+                             P_unit=Pu_, size=16, seeds=[0, 1], P_mixed=True))
+    for custom in ("s_lognormal", "omega_vonmises", "both", "M0_uniform", "e_given_P", "e_given_P_rev", "e_truncated", "s_mixture", "P_det", "K_given_P"):
         for gl in (False, True):
             samp.append(dict(kind="sample", P_lim=[1.0, 1000.0], sigma_K0=30.0, P0_days=365.25, sigma_v=[100.0, 0.5], poly_trend=1, generate_linear=gl,
                              P_unit="day", size=16, seeds=[0, 1], custom=custom))
